@@ -401,6 +401,13 @@ func (s *Schema) Compile() error {
 	return s.bind()
 }
 
+// BindTo binds a hand-built schema description to an already compiled module.
+func (s *Schema) BindTo(m *meta.Module) error {
+	s.link()
+	s.Mod = m
+	return s.bind()
+}
+
 func (s *Schema) bind() error {
 	var rec func(n *SNode, parent meta.HasDataDefinitions) error
 	rec = func(n *SNode, parent meta.HasDataDefinitions) error {
